@@ -176,6 +176,38 @@ def record(chunk):
     return out
 
 
+def repo_test_traces(run):
+    """the repository's own test-suite as a driver: every registered-function call made while the unedited tests run is
+    recorded (harness/pytest_recorder.py) and validated against the whole modelled library (Trace_Library)"""
+    import glob
+    import json
+    import os
+    import subprocess
+    import sys
+    from harness.core import VERIF
+    rec = os.path.join(run.work, 'rec')
+    os.makedirs(rec, exist_ok=True)
+    env = dict(os.environ, PYTHONPATH=VERIF, VERIF_REC_FILE=os.path.join(rec, 'ev'), VERIF_DIR=VERIF, XLCALC_REPO=xl.REPO)
+    subprocess.run([sys.executable, '-m', 'pytest', '-q', '-p', 'no:cacheprovider', '-p', 'harness.pytest_recorder', '-n', '8',
+                    '--timeout=900'], cwd=xl.REPO, env=env, stdout=subprocess.DEVNULL, stderr=subprocess.DEVNULL, timeout=1800)
+    evs = []
+    for p in sorted(glob.glob(os.path.join(rec, 'ev.*'))):
+        for line in open(p):
+            e = json.loads(line)
+            if 'python' in e.get('test', '').lower():       # tests that switch xl.COMPATIBILITY to 'PYTHON' (another definition of NPV/PMT)
+                continue
+            if e['res'].get('t') == 'exc' and e['f'] in ('SUMIF', 'SUMIFS') and e['res'].get('cls') == 'AttributeError':
+                continue                                    # pandas 3 removed DataFrame.applymap (baseline failure, not ours)
+            evs.append(e)
+    if len(evs) < 300:
+        raise xl.MachineryError(f'only {len(evs)} calls recorded from the repository test-suite')
+    run.evaluations += len(evs)
+    trace.validate(run, [dict({k: e[k] for k in ('f', 'args', 'res')}, path='direct', test=e['test']) for e in evs],
+                   module='Trace_Library', kind='call', name='repotests',
+                   features=lambda e, x, v: {'f': e['f'], 'verdict': v, 'test': e.get('test', '')[:80]})
+    run.notes['repo_test_call_events'] = len(evs)
+
+
 def run(run):
     r = run.tlc('MC_C07', 'C07_quick.cfg' if run.tier == 'quick' else 'C07_thorough.cfg', dump=True, timeout=900)
     blocks = pool.dump_blocks(r.dump, skip_substr='"pending"')
@@ -209,6 +241,8 @@ def run(run):
     trace.validate(run, recorded, module='Trace_C07', kind='call',
                    features=lambda e, x, v: {'f': e['f'], 'path': e['path'], 'verdict': v})
     run.notes['trace_events'] = len(recorded)
+    if run.tier == 'thorough':
+        repo_test_traces(run)
     run.rule = ('every binary operator x operand position x 7 error codes x 9 partner values, both operands errors, unary operators; the 9x9 '
                 'operand matrix (value or Excel error, never an exception); every witness of XlSig (104 call shapes covering every '
                 'registered non-opaque function) x every scalar position and every range-element position x 7 codes, and pairs of '
